@@ -114,7 +114,8 @@ type Interp struct {
 		Decides     int
 		Unsupported map[string]int
 	}
-	Used map[string]string // function → class (interp / intrinsic / stub)
+	Used     map[string]string // function → class (interp / intrinsic / stub)
+	InitUsed map[string]string
 
 	curFrame *frame
 	Debug    bool
@@ -128,6 +129,7 @@ type Interp struct {
 	runeBytes        map[*sym.Term][]*sym.Term // per path: rune term → the valid UTF-8 bytes it was decoded from
 	NoRuneProvenance bool
 	stubMemo         map[string]Str
+	allowFn          map[string]bool // functions of unmodelled packages that may be interpreted
 }
 
 type kfRec struct {
@@ -153,6 +155,7 @@ func New(prog *ssa.Program, kind string, timeoutMs int) (*Interp, error) {
 		MaxDepth:   400,
 		MaxMapPerm: 4,
 		Used:       map[string]string{},
+		allowFn:    map[string]bool{},
 	}
 	ip.Stats.Unsupported = map[string]int{}
 	registerIntrinsics(ip)
@@ -477,7 +480,7 @@ func (ip *Interp) callSSA(caller *frame, fn *ssa.Function, args []Value, env []V
 		panic(unsupported("external function without body: " + name))
 	}
 	if ip.Used[name] == "" {
-		if p := fn.Package(); p != nil && ip.InitAllow != nil && !ip.InitAllow(p.Pkg.Path()) {
+		if p := fn.Package(); p != nil && ip.InitAllow != nil && !ip.InitAllow(p.Pkg.Path()) && !ip.allowFn[name] {
 			if ip.inInit {
 				return Poison{"call into unmodelled package " + p.Pkg.Path()}
 			}
